@@ -74,7 +74,15 @@ func judgeC04(c SrvCase) []Violation {
 		if info, err := w.peek(o.Dir); err == nil {
 			preSize = info.Size()
 		}
+		isLink := false
+		var dumpBefore string
+		if info, err := w.peek(o.Dir); err == nil && info.Mode()&os.ModeSymlink != 0 && o.Kind == "setattr" {
+			isLink, dumpBefore = true, w.fs.Dump(true)
+		}
 		r := w.do(o)
+		if isLink && !r.NoHandle && w.fs.Dump(true) != dumpBefore {
+			bad("setattr-through-symlink", "SETATTR on the handle of a symbolic link changed another object (the link's target)")
+		}
 		if r.NoHandle || r.Res.Bad {
 			continue
 		}
